@@ -1286,3 +1286,799 @@ Proof.
   intro E. destruct (never_early_all xs _ _ _ _ _ E) as (clk & d & rep & t0 & C & _).
   exists clk, d, rep. exact C.
 Qed.
+
+(* ====================================================================================
+   The executable monitor accepts the model's own observations, for every op list.
+   ==================================================================================== *)
+
+(* ---- list / alist helpers ---- *)
+Lemma length_aset_new {V} k (v : V) m : aget k m = None -> length (aset k v m) = S (length m).
+Proof.
+  induction m as [|[k' w] r IH]; cbn [aget aset length]; intro N; [reflexivity|].
+  destruct (Z.eqb_spec k k'); [discriminate|].
+  destruct (Z.ltb k k'); cbn [length]; [reflexivity|]. rewrite IH by exact N. reflexivity.
+Qed.
+
+Lemma length_aset_old {V} k (v w0 : V) m :
+  sorted m -> aget k m = Some w0 -> length (aset k v m) = length m.
+Proof.
+  induction m as [|[k' w] r IH]; cbn [aget aset length]; intros S N; [discriminate|].
+  cbn [sorted] in S. destruct S as [L S].
+  destruct (Z.eqb_spec k k').
+  - subst. rewrite Z.ltb_irrefl. reflexivity.
+  - destruct (Z.ltb_spec k k'); cbn [length].
+    + exfalso. rewrite (lb_not_in k r) in N; [discriminate|]. eapply lb_trans; eauto.
+    + rewrite IH; auto.
+Qed.
+
+Lemma lb_not_key {V} k (m : alist V) : lb k m -> ~ In k (map fst m).
+Proof.
+  induction m as [|[k' v] r IH]; cbn [lb map fst In]; [tauto|]. intros [L1 L2] [E|I]; [lia | exact (IH L2 I)].
+Qed.
+
+Lemma pending_keys_in m k : In k (map fst (pending m)) -> In k (map fst m).
+Proof.
+  induction m as [|[k' t] r IH]; cbn [pending map fst In]; [tauto|].
+  destruct (t_tok t); cbn [map fst In]; intuition.
+Qed.
+
+Lemma pending_nodup m : sorted m -> NoDup (map fst (pending m)).
+Proof.
+  induction m as [|[k t] r IH]; cbn [sorted pending map]; [constructor|]. intros [L S].
+  destruct (t_tok t); auto. cbn [map fst]. constructor; [|auto].
+  intro I. apply pending_keys_in in I. exact (lb_not_key _ _ L I).
+Qed.
+
+Lemma pending_spec m k dl :
+  In (k, dl) (pending m) -> sorted m -> exists t, aget k m = Some t /\ t_tok t = Pending dl.
+Proof.
+  induction m as [|[k' t] r IH]; cbn [pending sorted]; [intros []|]. intros I [L S].
+  assert (Rest : In (k, dl) (pending r) -> exists t0, aget k ((k', t) :: r) = Some t0 /\ t_tok t0 = Pending dl).
+  { intro I2. destruct (IH I2 S) as (t0 & E & Q). exists t0. split; [|exact Q]. cbn [aget].
+    destruct (Z.eqb_spec k k'); [|exact E]. subst. rewrite (lb_not_in _ _ L) in E. discriminate. }
+  destruct (t_tok t) eqn:Q; auto. destruct I as [E|I]; [|auto].
+  inv E. exists t. cbn [aget]. rewrite Z.eqb_refl. auto.
+Qed.
+
+Lemma subseq_In {A} (l ks : list A) x : subseq l ks -> In x l -> In x ks.
+Proof.
+  induction 1 as [ks|s y ks H IH|s y ks H IH]; cbn [In]; [tauto | intuition | intuition].
+Qed.
+
+Lemma subseq_NoDup {A} (l ks : list A) : subseq l ks -> NoDup ks -> NoDup l.
+Proof.
+  induction 1 as [ks|s y ks H IH|s y ks H IH]; intro N; [constructor | inv N; auto |].
+  inv N. constructor; [|auto]. intro I. apply H2. eapply subseq_In; eauto.
+Qed.
+
+Lemma subseq_app2 {A} (a b c d : list A) : subseq a c -> subseq b d -> subseq (a ++ b) (c ++ d).
+Proof.
+  induction 1 as [l| |]; intro H2; cbn [app].
+  - induction l; cbn [app]; [exact H2 | constructor; assumption].
+  - constructor. auto.
+  - apply subseq_take. auto.
+Qed.
+
+Lemma zcount_le1_NoDup l : (forall k, (zcount k l <= 1)%nat) -> NoDup l.
+Proof.
+  induction l as [|x r IH]; intro H; [constructor|]. constructor.
+  - intro I. apply zcount_In in I. specialize (H x). cbn [zcount] in H. rewrite Z.eqb_refl in H. lia.
+  - apply IH. intro k. specialize (H k). cbn [zcount] in H. lia.
+Qed.
+
+Lemma zinsert_In x y l : In x (zinsert y l) <-> x = y \/ In x l.
+Proof.
+  induction l as [|z r IH]; cbn [zinsert In]; [intuition|].
+  destruct (y <=? z); cbn [In]; [intuition | rewrite IH; intuition].
+Qed.
+
+Lemma zinsert_NoDup y l : ~ In y l -> NoDup l -> NoDup (zinsert y l).
+Proof.
+  induction l as [|z r IH]; cbn [zinsert]; intros N D; [constructor; [tauto | constructor]|].
+  destruct (y <=? z); [constructor; assumption|]. inv D. constructor.
+  - rewrite zinsert_In. cbn [In] in N. intuition.
+  - apply IH; [cbn [In] in N; tauto | assumption].
+Qed.
+
+Lemma zsort_In x l : In x (zsort l) <-> In x l.
+Proof.
+  induction l as [|y r IH]; cbn [zsort fold_right In]; [tauto|].
+  fold (zsort r). rewrite zinsert_In, IH. intuition.
+Qed.
+
+Lemma zsort_NoDup l : NoDup l -> NoDup (zsort l).
+Proof.
+  induction 1 as [|y r N D IH]; cbn [zsort fold_right]; [constructor|]. fold (zsort r).
+  apply zinsert_NoDup; [rewrite zsort_In; exact N | exact IH].
+Qed.
+
+Lemma nodupb_of_subseq l ks : subseq l ks -> NoDup ks -> nodupb l = true.
+Proof. intros S N. apply nodupb_NoDup. eapply subseq_NoDup; eauto. Qed.
+
+Lemma count_cb_nonneg k tr : 0 <= count_cb k tr.
+Proof. induction tr as [|x r IH]; cbn [count_cb]; [lia|]. destruct x; try exact IH. destruct (Z.eqb k k0); lia. Qed.
+
+Definition nocb (e : list ev) : Prop := forall k c a, ~ In (ECb k c a) e.
+
+Lemma cbrecs_nocb e : nocb e -> forall tr, cbrecs tr e = [].
+Proof.
+  induction e as [|x r IH]; intros N tr; [reflexivity|].
+  assert (N2 : nocb r) by (intros k c a I; apply (N k c a); right; exact I).
+  destruct x; cbn [cbrecs]; try (apply IH; exact N2).
+  exfalso. apply (N k clk a). left. reflexivity.
+Qed.
+
+Lemma cbrecs_app e1 : forall tr e2, cbrecs tr (e1 ++ e2) = cbrecs tr e1 ++ cbrecs (tr ++ e1) e2.
+Proof.
+  induction e1 as [|x r IH]; intros tr e2; cbn [app cbrecs]; [rewrite app_nil_r; reflexivity|].
+  destruct x; cbn [cbrecs app]; rewrite IH, <- app_assoc; reflexivity.
+Qed.
+
+Lemma nocb_app a b : nocb a -> nocb b -> nocb (a ++ b).
+Proof. intros A B k c x I. apply in_app_or in I. destruct I; [eapply A | eapply B]; eauto. Qed.
+
+Lemma queued_of_app a b : queued_of (a ++ b) = queued_of a ++ queued_of b.
+Proof. induction a as [|x r IH]; cbn [app queued_of]; [reflexivity|]. destruct x; cbn [app]; rewrite IH; reflexivity. Qed.
+
+Lemma m_cbs_app l1 : forall m l2,
+  m_cbs m (l1 ++ l2) =
+  (fst (m_cbs m l1) && fst (m_cbs (snd (m_cbs m l1)) l2), snd (m_cbs (snd (m_cbs m l1)) l2)).
+Proof.
+  induction l1 as [|r t IH]; intros m l2; cbn [app m_cbs].
+  - cbn [fst snd andb]. destruct (m_cbs m l2); reflexivity.
+  - destruct (m_cb m r) as [b m1]. rewrite IH. destruct (m_cbs m1 t) as [b2 m2]. cbn [fst snd].
+    destruct (m_cbs m2 l2) as [b3 m3]. cbn [fst snd]. rewrite andb_assoc. reflexivity.
+Qed.
+
+(* ---- steps other than create keep the set of timers and their fixed fields ---- *)
+Definition same_keys (s s' : st) : Prop :=
+  forall k, (aget k (objs s) = None -> aget k (objs s') = None) /\
+            (forall t, aget k (objs s) = Some t ->
+               exists t', aget k (objs s') = Some t' /\ t_prog t' = t_prog t /\ t_period t' = t_period t).
+Definition quiet_upd (s s' : st) : Prop :=
+  same_keys s s' /\ next s' = next s /\ (sorted (objs s) -> sorted (objs s')).
+
+Lemma qu_same s s' : objs s' = objs s -> next s' = next s -> quiet_upd s s'.
+Proof.
+  intros Ho Hn. split; [|split; [exact Hn | rewrite Ho; auto]].
+  intro k. rewrite Ho. split; [auto | intros t E; exists t; auto].
+Qed.
+
+Lemma qu_put s s1 k t t1 :
+  objs s1 = objs s -> next s1 = next s -> aget k (objs s) = Some t ->
+  t_prog t1 = t_prog t -> t_period t1 = t_period t -> quiet_upd s (put s1 k t1).
+Proof.
+  intros Ho Hn E P1 P2. unfold put, with_objs. split; [|split]; cbn [objs next].
+  - intro j. cbn [objs]. rewrite Ho. destruct (Z.eq_dec j k) as [->|N].
+    + rewrite aget_aset_same. split; [congruence|]. intros t0 E0. rewrite E in E0. inv E0. eauto.
+    + rewrite aget_aset_other by exact N. split; [auto | intros t0 E0; exists t0; auto].
+  - exact Hn.
+  - rewrite Ho. apply sorted_aset.
+Qed.
+
+Lemma qu_trans s1 s2 s3 : quiet_upd s1 s2 -> quiet_upd s2 s3 -> quiet_upd s1 s3.
+Proof.
+  intros (K1 & N1 & S1) (K2 & N2 & S2). split; [|split; [congruence | auto]].
+  intro k. destruct (K1 k) as [A1 B1]. destruct (K2 k) as [A2 B2]. split; [auto|].
+  intros t E. destruct (B1 t E) as (t' & E' & P1 & P2). destruct (B2 t' E') as (t'' & E'' & Q1 & Q2).
+  exists t''. repeat split; congruence.
+Qed.
+
+Lemma qu_cancel s k : quiet_upd s (fst (cancel s k)).
+Proof.
+  unfold cancel. cbn [fst]. destruct (aget k (objs s)) as [t|] eqn:E; [|apply qu_same; reflexivity].
+  destruct (t_reg t); [|apply qu_same; reflexivity].
+  eapply qu_put; eauto.
+Qed.
+
+Lemma qu_begin s k : quiet_upd s (fst (begin_at s k)).
+Proof.
+  unfold begin_at. destruct (cur s); [apply qu_same; reflexivity|].
+  destruct (zmem k (queue s)); [|apply qu_same; reflexivity].
+  destruct (aget k (objs s)) as [t|] eqn:E; [|apply qu_same; reflexivity].
+  destruct (t_canceled t); cbn [fst].
+  - eapply qu_put; eauto.
+  - eapply qu_trans; [eapply (qu_put s (with_queue s (remove_first k (queue s))) k t (set_tok InCb t)); eauto|].
+    apply qu_same; reflexivity.
+Qed.
+
+Lemma qu_ret s k p : quiet_upd s (fst (ret s k p)).
+Proof.
+  unfold ret. destruct (aget k (objs s)) as [t|] eqn:E; [|apply qu_same; reflexivity].
+  destruct (t_canceled t); [|destruct (0 <? t_period t)]; cbn [fst]; eapply qu_put; eauto.
+Qed.
+
+Lemma qu_fire_check s k : quiet_upd s (fst (fire_check s k)).
+Proof.
+  unfold fire_check. destruct (aget k (objs s)) as [t|] eqn:E; [|apply qu_same; reflexivity].
+  destruct (t_tok t); try (apply qu_same; reflexivity).
+  destruct (_ <=? _); [|apply qu_same; reflexivity].
+  destruct (t_canceled t); [|destruct (running s)]; cbn [fst]; eapply qu_put; eauto.
+Qed.
+
+Lemma qu_fire_send s k : quiet_upd s (fst (fire_send s k)).
+Proof.
+  unfold fire_send. destruct (aget k (objs s)) as [t|] eqn:E; [|apply qu_same; reflexivity].
+  destruct (t_tok t); try (apply qu_same; reflexivity).
+  destruct (_ <? _); [|apply qu_same; reflexivity]. cbn [fst]. eapply qu_put; eauto.
+Qed.
+
+Lemma sorted_step s x : sorted (objs s) -> sorted (objs (fst (step s x))).
+Proof.
+  intro S. destruct x as [d rep a p|k| |k| | |dt|k|k]; cbn [step].
+  - cbn. apply sorted_aset. exact S.
+  - apply (qu_cancel s k). exact S.
+  - exact S.
+  - apply (qu_begin s k). exact S.
+  - destruct (queue s) as [|k q]; [exact S | apply (qu_begin s k); exact S].
+  - unfold cb_step. destruct (cur s) as [[k acts]|]; [|exact S].
+    destruct acts as [|[|j|d rep a p|] r].
+    + apply (qu_ret s k false). exact S.
+    + apply (qu_cancel (with_cur s (Some (k, r))) k). exact S.
+    + apply (qu_cancel (with_cur s (Some (k, r))) j). exact S.
+    + cbn. apply sorted_aset. exact S.
+    + apply (qu_ret s k true). exact S.
+  - exact S.
+  - apply (qu_fire_check s k). exact S.
+  - apply (qu_fire_send s k). exact S.
+Qed.
+
+Lemma sorted_run_from xs : forall s, sorted (objs s) -> sorted (objs (fst (run_from s xs))).
+Proof.
+  induction xs as [|x r IH]; intros s S; cbn [run_from]; [exact S|].
+  pose proof (sorted_step s x S) as S1. destruct (step s x) as [s1 e1]. cbn [fst] in S1.
+  specialize (IH s1 S1). destruct (run_from s1 r) as [s2 e2]. exact IH.
+Qed.
+
+(* ---- the monitor's state is a projection of (model state, trace) ---- *)
+Definition RI (tr : list ev) (k : Z) (t : timer) (i : minfo) : Prop :=
+  m_prog i = t_prog t /\ m_count i = count_cb k tr /\
+  (m_cancelled i = true -> cancelled_in k tr) /\ m_rep i = (0 <? t_period t).
+
+Definition Rel (s : st) (tr : list ev) (m : mstate) : Prop :=
+  sorted m /\ Z.of_nat (length m) = next s /\
+  forall k, match aget k m, aget k (objs s) with
+            | Some i, Some t => RI tr k t i
+            | None, None => True
+            | _, _ => False
+            end.
+
+Lemma rel_init : Rel init [] [].
+Proof. split; [exact Logic.I|]. split; [reflexivity|]. intro k. exact Logic.I. Qed.
+
+Lemma count_cb_nocb k e : nocb e -> count_cb k e = 0.
+Proof.
+  induction e as [|x r IH]; intro N; [reflexivity|].
+  assert (N2 : nocb r) by (intros j c a I; apply (N j c a); right; exact I).
+  destruct x; cbn [count_cb]; auto. exfalso. apply (N k0 clk a). left. reflexivity.
+Qed.
+
+Lemma rel_quiet s s' tr e m :
+  Rel s tr m -> quiet_upd s s' -> nocb e -> Rel s' (tr ++ e) m.
+Proof.
+  intros (S & L & H) (K & N & _) NC. split; [exact S|]. split; [congruence|].
+  intro k. specialize (H k). destruct (K k) as [A B].
+  destruct (aget k m) as [i|]; destruct (aget k (objs s)) as [t|] eqn:E; try contradiction.
+  - destruct (B t eq_refl) as (t' & E' & P1 & P2). rewrite E'.
+    destruct H as (H1 & H2 & H3 & H4). repeat split.
+    + congruence.
+    + rewrite count_cb_app, (count_cb_nocb k e NC). lia.
+    + intro C. apply cancelled_in_app_l. auto.
+    + congruence.
+  - rewrite (A eq_refl). exact Logic.I.
+Qed.
+
+Lemma rel_get s tr m k i :
+  Rel s tr m -> aget k m = Some i -> exists t, aget k (objs s) = Some t /\ RI tr k t i.
+Proof.
+  intros (_ & _ & H) E. specialize (H k). rewrite E in H.
+  destruct (aget k (objs s)) as [t|]; [eauto | contradiction].
+Qed.
+
+Lemma rel_get' s tr m k t :
+  Rel s tr m -> aget k (objs s) = Some t -> exists i, aget k m = Some i /\ RI tr k t i.
+Proof.
+  intros (_ & _ & H) E. specialize (H k). rewrite E in H.
+  destruct (aget k m) as [i|]; [eauto | contradiction].
+Qed.
+
+Lemma rel_none s tr m k : Rel s tr m -> aget k (objs s) = None -> aget k m = None.
+Proof.
+  intros (_ & _ & H) E. specialize (H k). rewrite E in H.
+  destruct (aget k m); [contradiction | reflexivity].
+Qed.
+
+(* replacing the monitor's record of an existing timer *)
+Lemma rel_update s tr m k i i' :
+  Rel s tr m -> aget k m = Some i ->
+  (forall t, aget k (objs s) = Some t -> RI tr k t i') ->
+  Rel s tr (aset k i' m).
+Proof.
+  intros (S & L & H) E U. split; [apply sorted_aset; exact S|].
+  split; [rewrite (length_aset_old _ _ _ _ S E); exact L|].
+  intro j. destruct (Z.eq_dec j k) as [->|N].
+  - rewrite aget_aset_same. specialize (H k). rewrite E in H.
+    destruct (aget k (objs s)) as [t|]; [auto | contradiction].
+  - rewrite aget_aset_other by exact N. apply H.
+Qed.
+
+Lemma rel_create s tr m d rep a p :
+  Inv s tr -> Rel s tr m ->
+  Rel (fst (create s d rep a p)) (tr ++ snd (create s d rep a p)) (m_create m d rep p).
+Proof.
+  intros I (S & L & H). pose proof (inv_fresh _ _ I) as F.
+  pose proof (rel_none _ _ _ _ (conj S (conj L H)) F) as Fm.
+  destruct (inv_none _ _ _ I F) as [_ _ _ _ Cb _].
+  unfold create, m_create, m_next. cbn [fst snd]. rewrite L.
+  split; [apply sorted_aset; exact S|].
+  split; [cbn [next]; rewrite (length_aset_new _ _ _ Fm); lia|].
+  intro k. cbn [objs]. destruct (Z.eq_dec k (next s)) as [->|N].
+  - rewrite !aget_aset_same. repeat split; cbn [m_prog m_count m_cancelled m_rep t_prog t_period].
+    + rewrite count_cb_app, Cb. reflexivity.
+    + discriminate.
+    + unfold repeating. destruct rep; reflexivity.
+  - rewrite !aget_aset_other by exact N. specialize (H k).
+    destruct (aget k m) as [i|]; destruct (aget k (objs s)) as [t|]; auto.
+    destruct H as (H1 & H2 & H3 & H4). repeat split; auto.
+    + rewrite count_cb_app. cbn [count_cb]. lia.
+    + intro C. apply cancelled_in_app_l. auto.
+Qed.
+
+Lemma rel_cancel s tr m k :
+  Inv s tr -> Rel s tr m ->
+  Rel (fst (cancel s k)) (tr ++ snd (cancel s k)) (m_cancel m k).
+Proof.
+  intros I R.
+  assert (R1 : Rel (fst (cancel s k)) (tr ++ [ECancel k]) m).
+  { apply rel_quiet with (s := s); [exact R | apply qu_cancel |].
+    intros j c a [X|[]]. discriminate. }
+  change (snd (cancel s k)) with [ECancel k].
+  unfold m_cancel. destruct (aget k m) as [i|] eqn:E; [|exact R1].
+  apply rel_update with (i := i); [exact R1 | exact E|].
+  intros t' E'. destruct (rel_get _ _ _ _ _ R1 E) as (t2 & E2 & (H1 & H2 & H3 & H4)).
+  rewrite E' in E2. inv E2. repeat split; auto. intros _.
+  destruct (rel_get _ _ _ _ _ R E) as (t0 & E0 & _).
+  apply cancelled_in_snoc. eapply TI_created. apply (inv_some _ _ _ _ I E0).
+Qed.
+
+Lemma rel_ext s s' tr m : objs s' = objs s -> next s' = next s -> Rel s tr m -> Rel s' tr m.
+Proof. intros Ho Hn (S & L & H). split; [exact S|]. split; [congruence|]. rewrite Ho. exact H. Qed.
+
+Lemma cur_cancel s k : cur (fst (cancel s k)) = cur s.
+Proof. unfold cancel. cbn [fst]. destruct (aget k (objs s)) as [t|]; [destruct (t_reg t)|]; reflexivity. Qed.
+
+Lemma nocb_ret s k p : nocb (snd (ret s k p)).
+Proof.
+  unfold ret. destruct (aget k (objs s)) as [t|]; [|intros j c a [X|[]]; discriminate].
+  destruct (t_canceled t); [|destruct (0 <? t_period t)]; cbn [snd]; intros j c a X; cbn in X;
+    intuition discriminate.
+Qed.
+
+Lemma cur_ret s k p : cur (fst (ret s k p)) = None.
+Proof. apply ret_frame. Qed.
+
+(* running the callback program in the model = running it in the monitor *)
+Lemma prog_loop k n : forall s tr m acts,
+  Inv s tr -> Rel s tr m -> cur s = Some (k, acts) -> (length acts <= n)%nat ->
+  cur (fst (run_from s (repeat SCbStep (S n)))) = None /\
+  Rel (fst (run_from s (repeat SCbStep (S n)))) (tr ++ snd (run_from s (repeat SCbStep (S n))))
+      (m_prog_run m k acts) /\
+  nocb (snd (run_from s (repeat SCbStep (S n)))).
+Proof.
+  induction n as [|n IH]; intros s tr m acts I R Cu Ln.
+  - destruct acts; [|cbn in Ln; lia].
+    cbn [repeat run_from step]. unfold cb_step. rewrite Cu.
+    pose proof (cur_ret s k false) as C. pose proof (nocb_ret s k false) as N.
+    pose proof (rel_quiet s _ tr _ m R (qu_ret s k false) N) as R1.
+    destruct (ret s k false) as [s1 e1]. cbn [fst snd] in *. rewrite app_nil_r. auto.
+  - assert (Fin : forall pan, cb_step s = ret s k pan -> forall m0, m0 = m ->
+      cur (fst (run_from s (repeat SCbStep (S (S n))))) = None /\
+      Rel (fst (run_from s (repeat SCbStep (S (S n)))))
+          (tr ++ snd (run_from s (repeat SCbStep (S (S n))))) m0 /\
+      nocb (snd (run_from s (repeat SCbStep (S (S n)))))).
+    { intros pan H m0 ->. change (repeat SCbStep (S (S n))) with (SCbStep :: repeat SCbStep (S n)).
+      cbn [run_from step]. rewrite H.
+      pose proof (cur_ret s k pan) as C. pose proof (nocb_ret s k pan) as N.
+      pose proof (rel_quiet s _ tr _ m R (qu_ret s k pan) N) as R1.
+      destruct (ret s k pan) as [s1 e1]. cbn [fst snd] in *.
+      rewrite (idle_cb (S n) s1 C). cbn [fst snd]. rewrite app_nil_r. auto. }
+    assert (Go : forall s1 e1 r m1,
+      cb_step s = (s1, e1) -> cur s1 = Some (k, r) -> (length r <= n)%nat ->
+      Rel s1 (tr ++ e1) m1 -> nocb e1 ->
+      cur (fst (run_from s (repeat SCbStep (S (S n))))) = None /\
+      Rel (fst (run_from s (repeat SCbStep (S (S n)))))
+          (tr ++ snd (run_from s (repeat SCbStep (S (S n))))) (m_prog_run m1 k r) /\
+      nocb (snd (run_from s (repeat SCbStep (S (S n)))))).
+    { intros s1 e1 r m1 H Cu1 Lr R1 N1.
+      change (repeat SCbStep (S (S n))) with (SCbStep :: repeat SCbStep (S n)).
+      cbn [run_from step]. rewrite H.
+      pose proof (inv_cb_step s tr I) as I1. rewrite H in I1. cbn [fst snd] in I1.
+      destruct (IH s1 _ m1 r I1 R1 Cu1 Lr) as (A1 & A2 & A3).
+      destruct (run_from s1 (repeat SCbStep (S n))) as [s2 e2]. cbn [fst snd] in *.
+      rewrite app_assoc. split; [exact A1|]. split; [exact A2 | apply nocb_app; assumption]. }
+    destruct acts as [|a r]; [apply (Fin false); [unfold cb_step; rewrite Cu|]; reflexivity|].
+    cbn [length] in Ln.
+    assert (W : Inv (with_cur s (Some (k, r))) tr).
+    { apply inv_ext with (s := s); auto; try reflexivity; try lia.
+      unfold cur_key. cbn [with_cur cur]. rewrite Cu. reflexivity. }
+    assert (RW : Rel (with_cur s (Some (k, r))) tr m) by (apply rel_ext with (s := s); auto).
+    destruct a as [|j|d rep a p|]; cbn [m_prog_run].
+    + eapply Go; [unfold cb_step; rewrite Cu; apply surjective_pairing | | lia | |].
+      * rewrite cur_cancel. reflexivity.
+      * apply rel_cancel; assumption.
+      * intros j c a [X|[]]. discriminate.
+    + eapply Go; [unfold cb_step; rewrite Cu; apply surjective_pairing | | lia | |].
+      * rewrite cur_cancel. reflexivity.
+      * apply rel_cancel; assumption.
+      * intros j' c a [X|[]]. discriminate.
+    + eapply Go; [unfold cb_step; rewrite Cu; apply surjective_pairing | | lia | |].
+      * reflexivity.
+      * apply rel_create; assumption.
+      * intros j' c a' [X|[]]. discriminate.
+    + apply (Fin true); [unfold cb_step; rewrite Cu|]; reflexivity.
+Qed.
+
+Lemma begin_cases s k :
+  cur s = None ->
+  (snd (begin_at s k) = [] /\ cur (fst (begin_at s k)) = None) \/
+  (exists t, zmem k (queue s) = true /\ aget k (objs s) = Some t /\ t_canceled t = false).
+Proof.
+  intro Cu. unfold begin_at. rewrite Cu. destruct (zmem k (queue s)) eqn:M; [|left; auto].
+  destruct (aget k (objs s)) as [t|] eqn:E; [|left; cbn; auto].
+  destruct (t_canceled t) eqn:Ca; [left; cbn; auto | right; eauto].
+Qed.
+
+Definition the_rec (k : Z) (tr : list ev) : cbrec := CbRec k (count_cb k tr + 1) true false false true.
+
+Lemma rel_count s s' tr m k i c a :
+  Rel s tr m -> quiet_upd s s' -> aget k m = Some i ->
+  Rel s' (tr ++ [ECb k c a]) (aset k (mkM (m_rep i) (m_prog i) (m_cancelled i) (m_count i + 1)) m).
+Proof.
+  intros (S & L & H) (K & N & _) Ei. split; [apply sorted_aset; exact S|].
+  split; [rewrite (length_aset_old _ _ _ _ S Ei); congruence|].
+  intro j. pose proof (H j) as Hj. destruct (K j) as [A B]. destruct (Z.eq_dec j k) as [->|Nk].
+  - rewrite aget_aset_same. rewrite Ei in Hj.
+    destruct (aget k (objs s)) as [t|] eqn:E; [|contradiction].
+    destruct (B t eq_refl) as (t' & E' & P1 & P2). rewrite E'.
+    destruct Hj as (G1 & G2 & G3 & G4). repeat split; cbn [m_prog m_count m_cancelled m_rep].
+    + congruence.
+    + rewrite count_cb_app. cbn [count_cb]. rewrite Z.eqb_refl. lia.
+    + intro C. apply cancelled_in_app_l. auto.
+    + congruence.
+  - rewrite aget_aset_other by exact Nk.
+    destruct (aget j m) as [ij|]; destruct (aget j (objs s)) as [tj|] eqn:Ej; try contradiction.
+    + destruct (B tj eq_refl) as (t' & E' & P1 & P2). rewrite E'.
+      destruct Hj as (G1 & G2 & G3 & G4). repeat split.
+      * congruence.
+      * rewrite count_cb_app. cbn [count_cb]. destruct (Z.eqb_spec j k); [contradiction | lia].
+      * intro C. apply cancelled_in_app_l. auto.
+      * congruence.
+    + rewrite (A eq_refl). exact Logic.I.
+Qed.
+
+(* one "Do k": either no callback (monitor state unchanged) or exactly the callback of k,
+   which the monitor accepts *)
+Lemma do_segment s tr m k n :
+  Inv s tr -> Rel s tr m -> cur s = None ->
+  (forall i, aget k m = Some i -> (length (m_prog i) <= n)%nat) ->
+  cur (fst (run_from s (SBegin k :: repeat SCbStep (S n)))) = None /\
+  ((cbrecs tr (snd (run_from s (SBegin k :: repeat SCbStep (S n)))) = [] /\
+    Rel (fst (run_from s (SBegin k :: repeat SCbStep (S n))))
+        (tr ++ snd (run_from s (SBegin k :: repeat SCbStep (S n)))) m) \/
+   (exists m', cbrecs tr (snd (run_from s (SBegin k :: repeat SCbStep (S n)))) = [the_rec k tr] /\
+               m_cb m (the_rec k tr) = (true, m') /\
+               Rel (fst (run_from s (SBegin k :: repeat SCbStep (S n))))
+                   (tr ++ snd (run_from s (SBegin k :: repeat SCbStep (S n)))) m')).
+Proof.
+  intros I R Cu Ln. cbn [run_from step].
+  destruct (begin_cases s k Cu) as [[E0 C0]|(t & M & E & Ca)].
+  - pose proof (rel_quiet s _ tr (snd (begin_at s k)) m R (qu_begin s k)) as R1. rewrite E0 in R1.
+    destruct (begin_at s k) as [s1 e1]. cbn [fst snd] in *. subst e1.
+    rewrite (idle_cb (S n) s1 C0). cbn [fst snd app]. split; [exact C0|]. left.
+    split; [reflexivity | apply R1; intros j c a []].
+  - destruct (queued_timer _ _ _ I M) as (t2 & E2 & Q & _). rewrite E in E2. inv E2.
+    destruct (inv_some _ _ _ _ I E) as [T _].
+    destruct (rel_get' _ _ _ _ _ R E) as (i & Ei & (H1 & H2 & H3 & H4)).
+    pose proof (inv_begin s tr k I) as I1. pose proof (qu_begin s k) as Q1.
+    rewrite (begin_ok s k t2 Cu M E Ca) in *. cbn [fst snd] in I1, Q1.
+    set (s1 := with_cur (put (with_queue s (remove_first k (queue s))) k (set_tok InCb t2))
+                        (Some (k, t_prog t2))) in *.
+    pose proof (rel_count s s1 tr m k i (clock s) (t_args t2) R Q1 Ei) as R1.
+    set (m1 := aset k (mkM (m_rep i) (m_prog i) (m_cancelled i) (m_count i + 1)) m) in *.
+    assert (Ln1 : (length (t_prog t2) <= n)%nat) by (rewrite <- H1; apply Ln; exact Ei).
+    destruct (prog_loop k n s1 _ m1 (t_prog t2) I1 R1 eq_refl Ln1) as (A1 & A2 & A3).
+    destruct (run_from s1 (repeat SCbStep (S n))) as [s2 e2]. cbn [fst snd] in *.
+    split; [exact A1|]. right. exists (m_prog_run m1 k (m_prog i)). split; [|split].
+    + cbn [app cbrecs]. rewrite (cbrecs_nocb e2 A3). reflexivity.
+    + unfold the_rec, m_cb. rewrite Ei.
+      assert (NCan : m_cancelled i = false).
+      { destruct (m_cancelled i) eqn:X; [|reflexivity]. exfalso.
+        destruct (ti_cancel_complete _ _ _ _ T (or_introl (H3 eq_refl))); congruence. }
+      assert (Once : m_rep i || (m_count i =? 0) = true).
+      { destruct (m_rep i) eqn:X; [reflexivity|]. cbn [orb].
+        pose proof (ti_oneshot _ _ _ _ T) as O. rewrite <- H4 in O. specialize (O eq_refl).
+        pose proof (ti_le _ _ _ _ T) as Le. rewrite Q in Le. cbn [live] in Le.
+        pose proof (count_cb_nonneg k tr). lia. }
+      f_equal. rewrite NCan, Once, H2, Z.eqb_refl. reflexivity.
+    + rewrite H1. rewrite <- app_assoc in A2. exact A2.
+Qed.
+
+(* the program of an existing timer never changes *)
+Lemma prog_stable_step s tr x k t :
+  Inv s tr -> aget k (objs s) = Some t ->
+  exists t', aget k (objs (fst (step s x))) = Some t' /\ t_prog t' = t_prog t.
+Proof.
+  intros I E.
+  assert (Q : forall s', quiet_upd s s' -> exists t', aget k (objs s') = Some t' /\ t_prog t' = t_prog t).
+  { intros s' (K & _ & _). destruct (K k) as [_ B]. destruct (B t E) as (t' & E' & P & _). eauto. }
+  assert (C : forall s0 d rep a p, objs s0 = objs s -> next s0 = next s ->
+              exists t', aget k (objs (fst (create s0 d rep a p))) = Some t' /\ t_prog t' = t_prog t).
+  { intros s0 d rep a p Ho Hn. unfold create. cbn [fst objs]. rewrite Ho, Hn.
+    destruct (inv_some _ _ _ _ I E) as [_ Rk]. rewrite aget_aset_other by lia. eauto. }
+  destruct x as [d rep a p|j| |j| | |dt|j|j]; cbn [step].
+  - apply C; reflexivity.
+  - apply Q, qu_cancel.
+  - cbn [fst objs]. eauto.
+  - apply Q, qu_begin.
+  - destruct (queue s) as [|j q]; [cbn [fst]; eauto | apply Q, qu_begin].
+  - unfold cb_step. destruct (cur s) as [[j acts]|]; [|cbn [fst]; eauto].
+    destruct acts as [|[|i|d rep a p|] r].
+    + apply Q, qu_ret.
+    + apply Q. eapply qu_trans; [|apply qu_cancel]. apply qu_same; reflexivity.
+    + apply Q. eapply qu_trans; [|apply qu_cancel]. apply qu_same; reflexivity.
+    + apply C; reflexivity.
+    + apply Q, qu_ret.
+  - cbn [fst objs]. eauto.
+  - apply Q, qu_fire_check.
+  - apply Q, qu_fire_send.
+Qed.
+
+Lemma prog_stable_run xs : forall s tr k t,
+  Inv s tr -> aget k (objs s) = Some t ->
+  exists t', aget k (objs (fst (run_from s xs))) = Some t' /\ t_prog t' = t_prog t.
+Proof.
+  induction xs as [|x r IH]; intros s tr k t I E; cbn [run_from]; [cbn [fst]; eauto|].
+  destruct (prog_stable_step s tr x k t I E) as (t1 & E1 & P1).
+  pose proof (inv_step s tr x I) as I1. destruct (step s x) as [s1 e1]. cbn [fst snd] in *.
+  destruct (IH s1 _ k t1 I1 E1) as (t2 & E2 & P2). destruct (run_from s1 r) as [s2 e2]. cbn [fst] in *.
+  exists t2. split; [exact E2 | congruence].
+Qed.
+
+(* "Do" of every key of ks in turn *)
+Definition seg (nlen : Z -> nat) (k : Z) : list step_t := SBegin k :: repeat SCbStep (S (nlen k)).
+
+Lemma doall_loop nlen ks : forall s tr m,
+  Inv s tr -> Rel s tr m -> cur s = None ->
+  (forall k, In k ks -> exists t, aget k (objs s) = Some t /\ (length (t_prog t) <= nlen k)%nat) ->
+  cur (fst (run_from s (flat_map (seg nlen) ks))) = None /\
+  exists m', m_cbs m (cbrecs tr (snd (run_from s (flat_map (seg nlen) ks)))) = (true, m') /\
+             Rel (fst (run_from s (flat_map (seg nlen) ks)))
+                 (tr ++ snd (run_from s (flat_map (seg nlen) ks))) m' /\
+             subseq (map rec_key (cbrecs tr (snd (run_from s (flat_map (seg nlen) ks))))) ks.
+Proof.
+  induction ks as [|k ks IH]; intros s tr m I R Cu P; cbn [flat_map].
+  - cbn [run_from fst snd cbrecs m_cbs map]. rewrite app_nil_r. split; [exact Cu|].
+    exists m. split; [reflexivity|]. split; [exact R | constructor].
+  - rewrite run_from_app. cbn [fst snd].
+    assert (Ln : forall i, aget k m = Some i -> (length (m_prog i) <= nlen k)%nat).
+    { intros i Ei. destruct (P k (or_introl eq_refl)) as (t & E & L).
+      destruct (rel_get _ _ _ _ _ R Ei) as (t' & E' & (H1 & _)). rewrite E in E'. inv E'. congruence. }
+    pose proof (inv_run_from (seg nlen k) s tr I) as I1.
+    assert (P1 : forall j, In j ks -> exists t, aget j (objs (fst (run_from s (seg nlen k)))) = Some t
+                                              /\ (length (t_prog t) <= nlen j)%nat).
+    { intros j Hj. destruct (P j (or_intror Hj)) as (t & E & L).
+      destruct (prog_stable_run (seg nlen k) s tr j t I E) as (t' & E' & Pt). exists t'. split; [exact E' | congruence]. }
+    destruct (do_segment s tr m k (nlen k) I R Cu Ln) as (C1 & D). unfold seg in *.
+    set (r1 := run_from s (SBegin k :: repeat SCbStep (S (nlen k)))) in *.
+    rewrite cbrecs_app, m_cbs_app, map_app.
+    destruct D as [(Z0 & R1)|(m1 & Z1 & B1 & R1)].
+    + destruct (IH (fst r1) _ m I1 R1 C1 P1) as (C2 & m' & A1 & A2 & A3).
+      split; [exact C2|]. exists m'. rewrite Z0. cbn [m_cbs fst snd andb map app].
+      rewrite A1. cbn [fst snd]. split; [reflexivity|]. split; [rewrite app_assoc; exact A2|].
+      constructor. exact A3.
+    + destruct (IH (fst r1) _ m1 I1 R1 C1 P1) as (C2 & m' & A1 & A2 & A3).
+      split; [exact C2|]. exists m'. rewrite Z1. cbn [m_cbs]. rewrite B1. cbn [fst snd andb map app].
+      rewrite A1. cbn [fst snd]. split; [reflexivity|]. split; [rewrite app_assoc; exact A2|].
+      unfold the_rec at 1. cbn [rec_key]. apply subseq_take. exact A3.
+Qed.
+
+(* ---- Settle: the runtime fires every armed timer ---- *)
+Lemma fc_facts s k :
+  snd (fire_check s k) = [] /\ cur (fst (fire_check s k)) = cur s /\
+  (forall j, j <> k -> aget j (objs (fst (fire_check s k))) = aget j (objs s)).
+Proof.
+  unfold fire_check. destruct (aget k (objs s)) as [t|]; [|cbn; auto].
+  destruct (t_tok t); try (cbn; auto; fail). destruct (_ <=? _); [|cbn; auto].
+  destruct (t_canceled t); [|destruct (running s)]; cbn [fst snd put with_objs objs cur];
+    (split; [reflexivity|]; split; [reflexivity|]; intros j N; apply aget_aset_other; exact N).
+Qed.
+
+Lemma fs_facts s k :
+  (snd (fire_send s k) = [] \/ snd (fire_send s k) = [EQueued k]) /\
+  cur (fst (fire_send s k)) = cur s /\
+  (forall j, j <> k -> aget j (objs (fst (fire_send s k))) = aget j (objs s)).
+Proof.
+  unfold fire_send. destruct (aget k (objs s)) as [t|]; [|cbn; auto].
+  destruct (t_tok t); try (cbn; auto; fail). destruct (_ <? _); [|cbn; auto].
+  cbn [fst snd put with_objs with_queue objs cur].
+  split; [auto|]. split; [reflexivity|]. intros j N. apply aget_aset_other. exact N.
+Qed.
+
+Definition pairf (k : Z) : list step_t := [SFireCheck k; SFireSend k].
+
+Lemma pending_not_cancelled s tr m k t dl :
+  Inv s tr -> Rel s tr m -> aget k (objs s) = Some t -> t_tok t = Pending dl ->
+  exists i, aget k m = Some i /\ m_cancelled i = false.
+Proof.
+  intros I R E Q. destruct (rel_get' _ _ _ _ _ R E) as (i & Ei & (_ & _ & H3 & _)).
+  exists i. split; [exact Ei|]. destruct (m_cancelled i) eqn:X; [|reflexivity]. exfalso.
+  destruct (inv_some _ _ _ _ I E) as [T _].
+  destruct (ti_cancel_complete _ _ _ _ T (or_introl (H3 eq_refl))) as [C|C]; [|congruence].
+  destruct (ti_cancel_sound _ _ _ _ T C) as [_ N]. exact (N dl Q).
+Qed.
+
+Lemma settle_loop ks : forall s tr m,
+  Inv s tr -> Rel s tr m -> NoDup ks ->
+  (forall k, In k ks -> exists t dl, aget k (objs s) = Some t /\ t_tok t = Pending dl) ->
+  cur (fst (run_from s (flat_map pairf ks))) = cur s /\
+  Rel (fst (run_from s (flat_map pairf ks))) (tr ++ snd (run_from s (flat_map pairf ks))) m /\
+  nocb (snd (run_from s (flat_map pairf ks))) /\
+  subseq (queued_of (snd (run_from s (flat_map pairf ks)))) ks /\
+  (forall k, In k (queued_of (snd (run_from s (flat_map pairf ks)))) ->
+     exists i, aget k m = Some i /\ m_cancelled i = false).
+Proof.
+  induction ks as [|k ks IH]; intros s tr m I R ND P; cbn [flat_map].
+  - cbn [run_from fst snd queued_of]. rewrite app_nil_r.
+    split; [reflexivity|]. split; [exact R|]. split; [intros j c a []|].
+    split; [constructor | intros j []].
+  - inv ND. destruct (P k (or_introl eq_refl)) as (t & dl & E & Q).
+    destruct (pending_not_cancelled _ _ _ _ _ _ I R E Q) as (i & Ei & NC).
+    change (pairf k ++ flat_map pairf ks) with (SFireCheck k :: SFireSend k :: flat_map pairf ks).
+    cbn [run_from step].
+    destruct (fc_facts s k) as (F1 & F2 & F3).
+    pose proof (inv_fire_check s tr k I) as I1.
+    pose proof (rel_quiet s _ tr (snd (fire_check s k)) m R (qu_fire_check s k)) as R1.
+    destruct (fire_check s k) as [s1 e1]. cbn [fst snd] in *. subst e1.
+    rewrite app_nil_r in *. specialize (R1 (fun j c a (X : In _ []) => X)).
+    destruct (fs_facts s1 k) as (G1 & G2 & G3).
+    pose proof (inv_fire_send s1 tr k I1) as I2.
+    pose proof (rel_quiet s1 _ tr (snd (fire_send s1 k)) m R1 (qu_fire_send s1 k)) as R2.
+    destruct (fire_send s1 k) as [s2 e2]. cbn [fst snd] in *.
+    assert (N2 : nocb e2) by (destruct G1 as [->| ->]; intros j c a X; cbn in X; intuition discriminate).
+    specialize (R2 N2).
+    assert (P2 : forall j, In j ks -> exists t dl, aget j (objs s2) = Some t /\ t_tok t = Pending dl).
+    { intros j Hj. assert (j <> k) by (intro; subst; contradiction).
+      rewrite G3, F3 by assumption. apply P. right. exact Hj. }
+    destruct (IH s2 _ m I2 R2 H2 P2) as (A1 & A2 & A3 & A4 & A5).
+    destruct (run_from s2 (flat_map pairf ks)) as [s3 e3]. cbn [fst snd app] in *.
+    split; [congruence|]. split; [rewrite app_assoc; exact A2|].
+    split; [apply nocb_app; assumption|]. rewrite queued_of_app.
+    destruct G1 as [->| ->]; cbn [queued_of app].
+    + split; [constructor; exact A4 | exact A5].
+    + split; [apply subseq_take; exact A4|]. intros j [<-|Hj]; [eauto | auto].
+Qed.
+
+Lemma queue_nodup s tr : Inv s tr -> NoDup (queue s).
+Proof.
+  intro I. apply zcount_le1_NoDup. intro k. destruct (aget k (objs s)) as [t|] eqn:E.
+  - destruct (inv_some _ _ _ _ I E) as [T _]. rewrite (ti_queue _ _ _ _ T). destruct (t_tok t); cbn; lia.
+  - rewrite (ab_queue _ _ _ (inv_none _ _ _ I E)). lia.
+Qed.
+
+Lemma settle_ok s tr m g :
+  Inv s tr -> Rel s tr m -> sorted (objs s) ->
+  cur (fst (run_from s (settle_steps s g))) = cur s /\
+  Rel (fst (run_from s (settle_steps s g))) (tr ++ snd (run_from s (settle_steps s g))) m /\
+  nocb (snd (run_from s (settle_steps s g))) /\
+  m_queued_ok m (queued_of (snd (run_from s (settle_steps s g)))) = true.
+Proof.
+  intros I R S. unfold settle_steps.
+  set (ks := map fst (pending (objs s))).
+  set (a := fold_right Z.max (clock s) (map snd (pending (objs s))) - clock s).
+  change (flat_map (fun k => [SFireCheck k; SFireSend k]) ks) with (flat_map pairf ks).
+  cbn [run_from step].
+  set (s1 := mkS (clock s + Z.max 0 a) (running s) (next s) (objs s) (queue s) (cur s)).
+  assert (I1 : Inv s1 tr).
+  { pose proof (inv_step s tr (SAdvance a) I) as X. cbn [step fst snd] in X. rewrite app_nil_r in X. exact X. }
+  assert (R1 : Rel s1 tr m) by (apply rel_ext with (s := s); auto).
+  assert (P : forall k, In k ks -> exists t dl, aget k (objs s1) = Some t /\ t_tok t = Pending dl).
+  { intros k Hk. apply in_map_iff in Hk. destruct Hk as ([k' dl] & <- & Hk).
+    destruct (pending_spec _ _ _ Hk S) as (t & E & Q). exists t, dl. auto. }
+  rewrite run_from_app.
+  destruct (settle_loop ks s1 tr m I1 R1 (pending_nodup _ S) P) as (A1 & A2 & A3 & A4 & A5).
+  pose proof (inv_run_from (flat_map pairf ks) s1 tr I1) as I2.
+  destruct (run_from s1 (flat_map pairf ks)) as [s2 e2]. cbn [fst snd run_from step app] in *.
+  rewrite !app_nil_r. split; [exact A1|]. split; [apply rel_ext with (s := s2); auto|].
+  split; [exact A3|]. unfold m_queued_ok. apply andb_true_iff. split.
+  - apply (nodupb_of_subseq _ ks A4). apply pending_nodup. exact S.
+  - apply forallb_forall. intros k Hk. destruct (A5 k Hk) as (i & Ei & NC). rewrite Ei, NC. reflexivity.
+Qed.
+
+Lemma prog_len_bound s tr m k :
+  Rel s tr m -> forall i, aget k m = Some i -> (length (m_prog i) <= prog_len s k)%nat.
+Proof.
+  intros R i Ei. destruct (rel_get _ _ _ _ _ R Ei) as (t & E & (H1 & _)).
+  unfold prog_len. rewrite E, H1. lia.
+Qed.
+
+(* the monitor accepts everything the model does, from every reachable idle state *)
+Lemma monitor_exec ops : forall s tr m,
+  Inv s tr -> Rel s tr m -> cur s = None -> sorted (objs s) ->
+  monitor_from m ops (exec_from s tr ops) = true.
+Proof.
+  induction ops as [|o r IH]; intros s tr m I R Cu Srt; rewrite exec_from_obs; [reflexivity|].
+  pose proof (inv_run_from (compile s o) s tr I) as I1.
+  pose proof (sorted_run_from (compile s o) s Srt) as S1.
+  destruct o as [d rep a p|k| |g|k|]; cbn [compile obs_of monitor_from] in *.
+  - (* create *)
+    cbn [run_from] in *. destruct (create s d rep a p) as [s1 e1] eqn:C. cbn [step fst snd] in *.
+    rewrite C in *. cbn [fst snd] in *. rewrite app_nil_r in *.
+    apply IH; auto.
+    + pose proof (rel_create s tr m d rep a p I R) as X. rewrite C in X. exact X.
+    + unfold create in C. inv C. exact Cu.
+  - (* cancel *)
+    cbn [run_from] in *. destruct (cancel s k) as [s1 e1] eqn:C. cbn [step fst snd] in *.
+    rewrite C in *. cbn [fst snd] in *. rewrite app_nil_r in *.
+    apply IH; auto.
+    + pose proof (rel_cancel s tr m k I R) as X. rewrite C in X. exact X.
+    + pose proof (cur_cancel s k) as X. rewrite C in X. cbn [fst] in X. congruence.
+  - (* stop = settle, then Mgr.Stop() *)
+    rewrite run_from_app in *. destruct (settle_ok s tr m 0 I R Srt) as (A1 & A2 & A3 & A4).
+    destruct (run_from s (settle_steps s 0)) as [s1 e1]. cbn [fst snd run_from step] in *.
+    rewrite queued_of_app. cbn [queued_of]. rewrite !app_nil_r. rewrite A4. cbn [andb].
+    apply IH; auto.
+    + rewrite app_assoc. apply rel_quiet with (s := s1); [exact A2 | apply qu_same; reflexivity|].
+      intros j c a [X|[]]. discriminate.
+    + cbn [cur]. congruence.
+  - (* settle *)
+    destruct (settle_ok s tr m g I R Srt) as (A1 & A2 & A3 & A4).
+    destruct (run_from s (settle_steps s g)) as [s1 e1]. cbn [fst snd] in *.
+    rewrite A4. cbn [andb]. apply IH; auto. congruence.
+  - (* do k *)
+    unfold do_steps in *.
+    destruct (do_segment s tr m k (prog_len s k) I R Cu (prog_len_bound s tr m k R)) as (C1 & D).
+    destruct (run_from s (SBegin k :: repeat SCbStep (S (prog_len s k)))) as [s1 e1]. cbn [fst snd] in *.
+    destruct D as [(Z0 & R1)|(m1 & Z1 & B1 & R1)].
+    + rewrite Z0. cbn [m_cbs length forallb Nat.leb andb]. apply IH; auto.
+    + rewrite Z1. cbn [m_cbs]. rewrite B1. unfold the_rec. cbn [length forallb Nat.leb andb rec_key].
+      rewrite Z.eqb_refl. cbn [andb]. apply IH; auto.
+  - (* do all *)
+    change (flat_map (do_steps s) (zsort (queue s))) with (flat_map (seg (prog_len s)) (zsort (queue s))) in *.
+    assert (P : forall k, In k (zsort (queue s)) ->
+                exists t, aget k (objs s) = Some t /\ (length (t_prog t) <= prog_len s k)%nat).
+    { intros k Hk. apply (proj1 (zsort_In k (queue s))) in Hk. apply (proj2 (zmem_In k (queue s))) in Hk.
+      destruct (queued_timer _ _ _ I Hk) as (t & E & _). exists t. split; [exact E|].
+      unfold prog_len. rewrite E. lia. }
+    destruct (doall_loop (prog_len s) (zsort (queue s)) s tr m I R Cu P) as (C1 & m' & A1 & A2 & A3).
+    destruct (run_from s (flat_map (seg (prog_len s)) (zsort (queue s)))) as [s1 e1]. cbn [fst snd] in *.
+    rewrite A1. cbn [andb].
+    rewrite (nodupb_of_subseq _ _ A3 (zsort_NoDup _ (queue_nodup _ _ I))). cbn [andb].
+    apply IH; auto.
+Qed.
+
+Lemma monitor_accepts_model ops : monitor_from [] ops (run ops) = true.
+Proof. apply monitor_exec; [exact inv_init | exact rel_init | reflexivity | exact Logic.I]. Qed.
+
+(* ---- what the monitor's logical clauses stand for, on traces of arbitrary step lists ---- *)
+(* clause [negb (m_cancelled i)] of m_cb: a callback is never preceded by a cancel of its
+   (existing) timer - the contrapositive of never_after_cancel *)
+Lemma clause_not_cancelled xs k c a t1 t2 :
+  trace xs = t1 ++ ECb k c a :: t2 -> ~ cancelled_in k t1.
+Proof.
+  intros E (u1 & u2 & E1 & Cr). subst t1. rewrite <- app_assoc in E. cbn [app] in E.
+  destruct (never_after_cancel_all xs k u1 _ E Cr) as [N _].
+  apply (N c a). apply in_or_app. right. left. reflexivity.
+Qed.
+
+(* clause [m_rep i || (m_count i =? 0)] of m_cb: when a one-shot's callback starts it has not
+   run before - from oneshot_once *)
+Lemma clause_oneshot_first xs k c a t1 t2 clk d rep a0 :
+  trace xs = t1 ++ ECb k c a :: t2 ->
+  creation k t1 = Some (clk, d, rep, a0) -> repeating d rep = false -> count_cb k t1 = 0.
+Proof.
+  intros E C R.
+  assert (C2 : creation k (trace xs) = Some (clk, d, rep, a0)) by (rewrite E, creation_app, C; reflexivity).
+  pose proof (oneshot_once xs k clk d rep a0 C2 R) as U.
+  rewrite E, count_cb_app in U. cbn [count_cb] in U. rewrite Z.eqb_refl in U.
+  pose proof (count_cb_nonneg k t1). pose proof (count_cb_nonneg k t2). lia.
+Qed.
